@@ -97,6 +97,16 @@ def q64(x):
     return math.floor(x * 64 + 0.5) / 64
 
 
+def rescale(scale, v):
+    """objective values of extreme magnitude, still exact in binary64: offset 2^30 (about 1e9, differences of a
+    few units) or factor 2^-40 (about 1e-12)"""
+    if scale == 'huge':
+        return v + 2.0 ** 30
+    if scale == 'tiny':
+        return v * 2.0 ** -40
+    return v
+
+
 def canon_val(v):
     if isinstance(v, (bool, np.bool_)):
         return int(v)
@@ -164,7 +174,7 @@ class Evaluator(ObjectiveEvaluate):
             raise ValueError('objective fails on this assignment')
         if fail == 'on-init' and snap_key(snap) == snap_key(self.input_snap):
             raise ValueError('objective fails on this assignment')
-        return q64(self._value(kind, snap))
+        return rescale(self.ospec.get('scale'), q64(self._value(kind, snap)))
 
     def evaluate(self, graph):
         fit = super().evaluate(graph)
@@ -517,7 +527,7 @@ def threshold_ambiguous(case, run):
         return False
     thr = Fraction(init) - abs(Fraction(init)) * Fraction(dev) / 100
     for e in evals[1:]:
-        if e[3][0] == 'S' and abs(Fraction(e[3][1]) - thr) <= Fraction(1, 10 ** 9) * max(1, abs(Fraction(init))):
+        if e[3][0] == 'S' and abs(Fraction(e[3][1]) - thr) <= Fraction(1, 10 ** 9) * abs(Fraction(init)):
             return True
     return False
 
@@ -530,6 +540,10 @@ UNTUNABLE = ['c', 'd', 'c | d']
 
 
 def gen_param(r, for_iopt):
+    if r.random() < 0.12:
+        # extreme magnitudes: log-scaled ranges far below 1e-6, a narrow range at 1e6, integers around 2^31
+        return r.choice([['loguniform', 1e-9, 1e-7], ['loguniform', 1e-12, 1e-10], ['uniform', 1e6, 1e6 + 5],
+                         ['uniformint', 2 ** 31 - 2, 2 ** 31 + (0 if for_iopt else 3)]])
     c = r.random()
     if c < 0.22:
         lo = r.choice([0, 1, 2])
@@ -604,10 +618,12 @@ def gen_graph(r, sspec, n_nodes, init_mode, outside_rate=0.0):
 def gen_objective(r, multi):
     single = ['sum', 'sum', 'sum', 'neg', 'neg', 'quad', 'quad', 'quad', 'initmin', 'const', 'zero', 'near', 'nearneg']
     fail = r.choice([None, None, None, None, None, None, 'mod3', 'mod3', 'on-set', 'on-init'])
+    scale = r.choice([None, None, None, None, 'huge', 'tiny'])
     if multi:
         return {'multi': True, 'metrics': r.choice([['sum', 'quad'], ['sum', 'neg'], ['quad', 'initmin'], ['initmin', 'const'],
-                                                    ['neg', 'quad'], ['sum', 'sum']]), 'fail': fail}
-    return {'multi': False, 'metrics': [r.choice(single)], 'fail': fail}
+                                                    ['neg', 'quad'], ['sum', 'sum'], ['near', 'initmin'], ['near', 'initmin']]),
+                'fail': fail, 'scale': scale}
+    return {'multi': False, 'metrics': [r.choice(single)], 'fail': fail, 'scale': scale}
 
 
 def discrete_combinations(sspec, gspec):
@@ -755,6 +771,23 @@ def corner_cases():
                     'tuner': base, 'corner': 'categorical'})
     out.append({'space': sp1, 'graph': one_init, 'objective': {'multi': False, 'metrics': ['neg'], 'fail': None},
                 'tuner': {'kind': 'sequential', 'iterations': 3, 'deviation': 0.05, 'inverse': True}, 'corner': 'inverse'})
+    # extreme magnitudes: tiny log-scaled ranges (hyperopt tuners), objectives around 2^30 and 2^-40
+    spm = {'a': {'x': ['loguniform', 1e-9, 1e-7], 'w': ['loguniform', 1e-12, 1e-10]}}
+    spn = {'a': {'y': ['uniform', 1e6, 1e6 + 5], 'n': ['uniformint', 2 ** 31 - 2, 2 ** 31]}}
+    for kind in KINDS:
+        # tiny values beat the default 6 of an unset parameter (sum); large values win under -sum
+        out.append({'space': spm, 'graph': one, 'objective': {'multi': False, 'metrics': ['sum'], 'fail': None},
+                    'tuner': {'kind': kind, 'iterations': 3, 'deviation': 0.0}, 'corner': 'tiny-log-ranges'})
+        out.append({'space': spn, 'graph': one, 'objective': {'multi': False, 'metrics': ['neg'], 'fail': None},
+                    'tuner': {'kind': kind, 'iterations': 3, 'deviation': 0.0}, 'corner': 'large-ranges'})
+        for scale in ('huge', 'tiny'):
+            out.append({'space': sp1, 'graph': one, 'objective': {'multi': False, 'metrics': ['sum'], 'fail': None, 'scale': scale},
+                        'tuner': {'kind': kind, 'iterations': 3, 'deviation': 0.0}, 'corner': 'extreme-metric-' + scale})
+    for kind in ('optuna', 'iopt'):
+        for scale in ('huge', 'tiny'):
+            # every change is worse in both objectives: the input dominates whatever the search finds
+            out.append({'space': sp1, 'graph': one, 'objective': {'multi': True, 'metrics': ['near', 'initmin'], 'fail': None, 'scale': scale},
+                        'tuner': {'kind': kind, 'iterations': 4, 'deviation': 0.05}, 'corner': 'dominating-input-' + scale})
     sps = {'scale | shift': {'p': ['uniform', 0.5, 1.0], 'max depth': ['uniformint', 1, 3]},
            'x || y': {'learning rate': ['uniform', 0.25, 0.75]}}
     gs = [{'name': 'scale | shift', 'params': {'p': 1.0, 'note': 'A'}, 'parents': [1]},
@@ -824,7 +857,7 @@ def facts(case, run):
     return dict(tuner=case['tuner']['kind'], entry='tune_node' if case.get('entry') else 'tune', input_mutated=run['input_mutated'],
                 multi=case['objective']['multi'], nodes=len(case['graph']),
                 iterations=case['tuner']['iterations'], objective='+'.join(case['objective']['metrics']),
-                fail=case['objective'].get('fail'), deviation=case['tuner']['deviation'],
+                fail=case['objective'].get('fail'), scale=case['objective'].get('scale'), deviation=case['tuner']['deviation'],
                 tunable=has_tunable(case), raised=obs['raised'] is not None,
                 outcome=('raised' if obs['raised'] else 'multi' if obs['multi'] else 'init-returned' if ret_init else 'tuned-returned'),
                 evaluations=min(len(evals), 50) // 5 * 5)
@@ -898,7 +931,8 @@ def run(ctx):
                 'fixed list of corner inputs for every tuner, plus chains of 11-13 nodes (two-digit node ids; frozen nodes 1, 2 share a '
                 'parameter name with tunable nodes 10..) for Simultaneous / Optuna, and a group driving the second entry point '
                 'SequentialTuner.tune_node(graph, node_index); operation names may contain the label separators (" | ", " || "), '
-                'parameter names spaces; distinct = distinct (space, graph, objective, tuner config); '
+                'parameter names spaces; ranges and objective values also at extreme magnitudes (log-uniform [1e-9,1e-7] / [1e-12,1e-10], '
+                'uniform [1e6,1e6+5], integers around 2^31; objectives offset by 2^30 or scaled by 2^-40); distinct = distinct (space, graph, objective, tuner config); '
                 'non-trivial = something to tune and tune() returned')
     ctx.trusted_extra = [
         'hyperopt / optuna / iOpt are arbitrary proposers to the model: their proposals are inferred from the logged '
